@@ -620,6 +620,8 @@ func checkListIndexParams(c *Ctx, r *Rec, info *types.Info, lst *types.Named, no
 			}
 			construct := c.fdName(fd) + "/" + p.Name()
 			bad := ""
+			var rawUse *ast.Ident
+			nOK := 0
 			uses := rawUses(g, info, p)
 			for _, id := range uses {
 				chain := pathTo(fd.Body, id)
@@ -653,8 +655,20 @@ func checkListIndexParams(c *Ctx, r *Rec, info *types.Info, lst *types.Named, no
 					}
 				}
 				if !okUse {
-					bad = fmt.Sprintf("raw use of the caller's index %q at %s is neither an argument of the ordinal API of the storage nor of the normaliser", p.Name(), c.pos(id.Pos()))
+					rawUse = id
+				} else {
+					nOK++
 				}
+			}
+			if rawUse != nil && nOK > 0 {
+				// the index has been handed to the ordinal API (or the normaliser) in this method:
+				// it has been validated there, and what the method does with it afterwards (an
+				// index of its own into a private snapshot) is arithmetic on a valid ordinal
+				r.skip("D1-list-index-param", construct, c.pos(fd.Pos()), fmt.Sprintf("the index is validated by the ordinal API and also used directly at %s: the direct use is not followed", c.pos(rawUse.Pos())))
+				continue
+			}
+			if rawUse != nil {
+				bad = fmt.Sprintf("raw use of the caller's index %q at %s is neither an argument of the ordinal API of the storage nor of the normaliser", p.Name(), c.pos(rawUse.Pos()))
 			}
 			if bad != "" {
 				r.fail("D1-list-index-param", construct, c.pos(fd.Pos()), bad)
@@ -1326,9 +1340,20 @@ func checkOrdinalArgs(c *Ctx, r *Rec, rule string, info *types.Info, fd *ast.Fun
 					}
 					return true
 				})
+				// the same for a range loop that steps it (for _, x := range snapshot { ordinal++ ... })
+				atLeast := map[*cfg.Block]*cfg.Block{}
+				inspectNoLit(body, func(y ast.Node) bool {
+					if rs, ok := y.(*ast.RangeStmt); ok && assignedIn(info, rs.Body, key, env) && !containsNode(rs, call) {
+						if head, _, done := g.loopBlocks(rs); head != nil && done != nil {
+							atLeast[head] = done
+						}
+					}
+					return true
+				})
 				reaches, _ := g.exists(pathQuery{
-					edgeOK: func(cond ast.Expr, pol bool) bool { return pol || !stepping[cond] },
-					from:   ipt,
+					edgeOK:      func(cond ast.Expr, pol bool) bool { return pol || !stepping[cond] },
+					atLeastOnce: atLeast,
+					from:        ipt,
 					stop: func(n ast.Node) bool {
 						if containsNode(n, call) {
 							return false
